@@ -563,6 +563,9 @@ func (x *Exec) callWith(e *ast.CallExpr, st *State, recvVal Value, args []Value)
 	}
 	c := x.eng.contractFor(fn)
 	if c == nil {
+		if v, ok := x.tryInline(e, st, fn, recvVal, args); ok {
+			return v
+		}
 		return x.abstractCall(e, st, key, resT, args, recvVal)
 	}
 	return x.applyContract(e, st, fn, c, recvVal, args, resT)
